@@ -629,6 +629,60 @@ theorem kwGap_length {kw cs r : List Char} (h : kwGap kw cs = some r) : r.length
     · cases h
   · cases h
 
+/-! ### the fixed parts of a do-block -/
+
+theorem wnPlus_length {cs r : List Char} (h : wnPlus cs = some r) : r.length < cs.length := by
+  simp only [wnPlus] at h
+  cases ha : wnAtom cs with
+  | none => rw [ha] at h; cases h
+  | some r0 =>
+    rw [ha] at h
+    simp only [Option.map_some, Option.some.injEq] at h
+    subst h
+    exact Nat.lt_of_le_of_lt (wnStar_length r0) (wnAtom_length ha)
+
+theorem doHead_length {cs r : List Char} (h : doHead cs = some r) : r.length < cs.length := by
+  simp only [doHead] at h
+  split at h
+  · rename_i r0 hl
+    have h0 := lit_length hl
+    split at h
+    · rename_i r' hw
+      simp only [Option.some.injEq] at h
+      subst h
+      have h1 := wnPlus_length hw
+      have h2 := gapG_length r'
+      simp only [List.length_cons] at h1
+      omega
+    · cases h
+  · cases h
+
+theorem stmtSep_length {cs r : List Char} (h : stmtSep cs = some r) : r.length < cs.length := by
+  simp only [stmtSep] at h
+  split at h
+  · rename_i r0 hp
+    simp only [Option.some.injEq] at h
+    subst h
+    have h1 := plainNewline_length hp
+    have h2 := star_length (e := plainNewline) (fun _ _ h => Nat.le_of_lt (plainNewline_length h))
+      (r0.length + 1) r0
+    omega
+  · split at h
+    · simp only [Option.some.injEq] at h
+      subst h
+      simp
+    · cases h
+
+theorem retHead_length {cs r : List Char} (h : retHead cs = some r) : r.length < cs.length := by
+  simp only [retHead] at h
+  split at h
+  · rename_i r0 hl
+    have h0 := lit_length hl
+    have h1 := skipWs_length cs
+    have h2 := wsPlus_length h
+    omega
+  · cases h
+
 /-! ### one-step unfoldings -/
 
 theorem exprR_succ (lam : Bool) (f : Nat) (cs : List Char) : exprR lam (f + 1) cs =
@@ -671,12 +725,66 @@ theorem termR_succ (f : Nat) (cs : List Char) : termR (f + 1) cs =
     match condR f cs with
     | .ok x => .ok x
     | .fail =>
-      (match lamR f cs with
+      (match doR f cs with
        | .ok x => .ok x
-       | .fail => term2R f cs
+       | .fail =>
+         (match lamR f cs with
+          | .ok x => .ok x
+          | .fail => term2R f cs
+          | .out => .out)
        | .out => .out)
     | .out => .out := by
   rw [termR]; rfl
+
+theorem doR_succ (f : Nat) (cs : List Char) : doR (f + 1) cs =
+    match doHead cs with
+    | some r1 =>
+      (match doStmtsR f r1 with
+       | .ok (stmts, r2) =>
+         (match retHead (gapH r2) with
+          | some r3 =>
+            (match exprR false f r3 with
+             | .ok (its, r4) =>
+               (match wnStar r4 with
+                | '}' :: r5 =>
+                  (match prattParse its with
+                   | some e => .ok (.doBlock stmts (.mk [] e none), r5)
+                   | none => .fail)
+                | _ => .fail)
+             | .fail => .fail
+             | .out => .out)
+          | none => .fail)
+       | .fail => .fail
+       | .out => .out)
+    | none => .fail := by
+  rw [doR.eq_def]; rfl
+
+theorem doStmtsR_succ (f : Nat) (cs : List Char) : doStmtsR (f + 1) cs =
+    match doStmtR f (skipWs cs) with
+    | .ok (oe, r1) =>
+      (match stmtSep (skipWs r1) with
+       | some r2 =>
+         (match doStmtsR f (gapG r2) with
+          | .ok (more, r3) => .ok (consStmt oe more, r3)
+          | .fail => .fail
+          | .out => .out)
+       | none => .ok ([], cs))
+    | .fail => .ok ([], cs)
+    | .out => .out := by
+  rw [doStmtsR.eq_def]; rfl
+
+theorem doStmtR_succ (f : Nat) (cs : List Char) : doStmtR (f + 1) cs =
+    match exprR false f cs with
+    | .ok (its, r) =>
+      (match prattParse its with
+       | some e => .ok (some e, itemTrail r)
+       | none => .fail)
+    | .fail =>
+      (match inlineComment cs with
+       | some r => .ok (none, itemTrail r)
+       | none => .fail)
+    | .out => .out := by
+  rw [doStmtR.eq_def]; rfl
 
 theorem condR_succ (f : Nat) (cs : List Char) : condR (f + 1) cs =
     match ifHead cs with
@@ -938,6 +1046,9 @@ theorem recKeyR_zero (cs : List Char) : recKeyR 0 cs = .out := by rw [recKeyR]
 theorem recPairR_zero (cs : List Char) : recPairR 0 cs = .out := by rw [recPairR]
 theorem recItemR_zero (cs : List Char) : recItemR 0 cs = .out := by rw [recItemR]
 theorem recTailR_zero (cs : List Char) : recTailR 0 cs = .out := by rw [recTailR]
+theorem doR_zero (cs : List Char) : doR 0 cs = .out := by rw [doR]
+theorem doStmtsR_zero (cs : List Char) : doStmtsR 0 cs = .out := by rw [doStmtsR]
+theorem doStmtR_zero (cs : List Char) : doStmtR 0 cs = .out := by rw [doStmtR]
 
 /-! ### fuel monotonicity -/
 
@@ -974,11 +1085,14 @@ structure StepAll (f : Nat) : Prop where
   rp : ∀ cs, recPairR f cs ≠ .out → recPairR (f + 1) cs = recPairR f cs
   ri : ∀ cs, recItemR f cs ≠ .out → recItemR (f + 1) cs = recItemR f cs
   rt : ∀ cs, recTailR f cs ≠ .out → recTailR (f + 1) cs = recTailR f cs
+  d : ∀ cs, doR f cs ≠ .out → doR (f + 1) cs = doR f cs
+  ds : ∀ cs, doStmtsR f cs ≠ .out → doStmtsR (f + 1) cs = doStmtsR f cs
+  d1 : ∀ cs, doStmtR f cs ≠ .out → doStmtR (f + 1) cs = doStmtR f cs
 
 theorem step (f : Nat) : StepAll f := by
   induction f with
   | zero =>
-    refine ⟨?_, ?_, ?_, ?_, ?_, ?_, ?_, ?_, ?_, ?_, ?_, ?_, ?_, ?_, ?_⟩
+    refine ⟨?_, ?_, ?_, ?_, ?_, ?_, ?_, ?_, ?_, ?_, ?_, ?_, ?_, ?_, ?_, ?_, ?_, ?_⟩
     · intro lam cs h; exact absurd (exprR_zero lam cs) h
     · intro lam cs h; exact absurd (tailR_zero lam cs) h
     · intro lam cs h; exact absurd (operandR_zero lam cs) h
@@ -994,8 +1108,11 @@ theorem step (f : Nat) : StepAll f := by
     · intro cs h; exact absurd (recPairR_zero cs) h
     · intro cs h; exact absurd (recItemR_zero cs) h
     · intro cs h; exact absurd (recTailR_zero cs) h
+    · intro cs h; exact absurd (doR_zero cs) h
+    · intro cs h; exact absurd (doStmtsR_zero cs) h
+    · intro cs h; exact absurd (doStmtR_zero cs) h
   | succ f ih =>
-    refine ⟨?_, ?_, ?_, ?_, ?_, ?_, ?_, ?_, ?_, ?_, ?_, ?_, ?_, ?_, ?_⟩
+    refine ⟨?_, ?_, ?_, ?_, ?_, ?_, ?_, ?_, ?_, ?_, ?_, ?_, ?_, ?_, ?_, ?_, ?_, ?_⟩
     · intro lam cs h
       rw [exprR_succ lam f] at h
       rw [exprR_succ lam (f + 1), exprR_succ lam f]
@@ -1033,14 +1150,21 @@ theorem step (f : Nat) : StepAll f := by
         rw [ih.c cs (by rw [h0]; exact Res.fail_ne_out), h0]
         rw [h0] at h
         simp only at h ⊢
-        cases h1 : lamR f cs with
-        | out => rw [h1] at h; exact absurd rfl h
-        | ok x => rw [ih.l cs (by rw [h1]; exact Res.ok_ne_out), h1]
+        cases hd : doR f cs with
+        | out => rw [hd] at h; exact absurd rfl h
+        | ok x => rw [ih.d cs (by rw [hd]; exact Res.ok_ne_out), hd]
         | fail =>
-          rw [ih.l cs (by rw [h1]; exact Res.fail_ne_out), h1]
-          rw [h1] at h
+          rw [ih.d cs (by rw [hd]; exact Res.fail_ne_out), hd]
+          rw [hd] at h
           simp only at h ⊢
-          exact ih.m2 cs h
+          cases h1 : lamR f cs with
+          | out => rw [h1] at h; exact absurd rfl h
+          | ok x => rw [ih.l cs (by rw [h1]; exact Res.ok_ne_out), h1]
+          | fail =>
+            rw [ih.l cs (by rw [h1]; exact Res.fail_ne_out), h1]
+            rw [h1] at h
+            simp only at h ⊢
+            exact ih.m2 cs h
     · intro cs h
       rw [lamR_succ f] at h
       rw [lamR_succ (f + 1), lamR_succ f]
@@ -1215,6 +1339,39 @@ theorem step (f : Nat) : StepAll f := by
         simp only at h ⊢
         step_site h2 : recTailR f r1, ih.rt, h
       · rfl
+    · intro cs h
+      rw [doR_succ f] at h
+      rw [doR_succ (f + 1), doR_succ f]
+      cases hh : doHead cs with
+      | none => rfl
+      | some r1 =>
+        rw [hh] at h
+        simp only at h ⊢
+        step_site h1 : doStmtsR f r1, ih.ds, h
+        rename_i x; obtain ⟨stmts, r2⟩ := x
+        simp only at h ⊢
+        cases hr : retHead (gapH r2) with
+        | none => rfl
+        | some r3 =>
+          rw [hr] at h
+          simp only at h ⊢
+          step_site h2 : exprR false f r3, ih.e false, h
+    · intro cs h
+      rw [doStmtsR_succ f] at h
+      rw [doStmtsR_succ (f + 1), doStmtsR_succ f]
+      step_site h1 : doStmtR f (skipWs cs), ih.d1, h
+      rename_i x; obtain ⟨oe, r1⟩ := x
+      simp only at h ⊢
+      cases hs : stmtSep (skipWs r1) with
+      | none => rfl
+      | some r2 =>
+        rw [hs] at h
+        simp only at h ⊢
+        step_site h2 : doStmtsR f (gapG r2), ih.ds, h
+    · intro cs h
+      rw [doStmtR_succ f] at h
+      rw [doStmtR_succ (f + 1), doStmtR_succ f]
+      step_site h1 : exprR false f cs, ih.e false, h
 
 theorem exprR_add {lam : Bool} {f : Nat} {cs : List Char} (h : exprR lam f cs ≠ .out) (k : Nat) :
     exprR lam (f + k) cs = exprR lam f cs := by
@@ -1381,6 +1538,39 @@ theorem recTailR_mono {f f' : Nat} {cs : List Char} {x} (h : f ≤ f')
   obtain ⟨k, rfl⟩ := Nat.exists_eq_add_of_le h
   rw [recTailR_add (by rw [hx]; exact Res.ok_ne_out), hx]
 
+theorem doR_add {f : Nat} {cs : List Char} (h : doR f cs ≠ .out) (k : Nat) :
+    doR (f + k) cs = doR f cs := by
+  induction k with
+  | zero => rfl
+  | succ k ih => rw [← Nat.add_assoc, (step (f + k)).d cs (by rw [ih]; exact h), ih]
+
+theorem doR_mono {f f' : Nat} {cs : List Char} {x} (h : f ≤ f')
+    (hx : doR f cs = .ok x) : doR f' cs = .ok x := by
+  obtain ⟨k, rfl⟩ := Nat.exists_eq_add_of_le h
+  rw [doR_add (by rw [hx]; exact Res.ok_ne_out), hx]
+
+theorem doStmtsR_add {f : Nat} {cs : List Char} (h : doStmtsR f cs ≠ .out) (k : Nat) :
+    doStmtsR (f + k) cs = doStmtsR f cs := by
+  induction k with
+  | zero => rfl
+  | succ k ih => rw [← Nat.add_assoc, (step (f + k)).ds cs (by rw [ih]; exact h), ih]
+
+theorem doStmtsR_mono {f f' : Nat} {cs : List Char} {x} (h : f ≤ f')
+    (hx : doStmtsR f cs = .ok x) : doStmtsR f' cs = .ok x := by
+  obtain ⟨k, rfl⟩ := Nat.exists_eq_add_of_le h
+  rw [doStmtsR_add (by rw [hx]; exact Res.ok_ne_out), hx]
+
+theorem doStmtR_add {f : Nat} {cs : List Char} (h : doStmtR f cs ≠ .out) (k : Nat) :
+    doStmtR (f + k) cs = doStmtR f cs := by
+  induction k with
+  | zero => rfl
+  | succ k ih => rw [← Nat.add_assoc, (step (f + k)).d1 cs (by rw [ih]; exact h), ih]
+
+theorem doStmtR_mono {f f' : Nat} {cs : List Char} {x} (h : f ≤ f')
+    (hx : doStmtR f cs = .ok x) : doStmtR f' cs = .ok x := by
+  obtain ⟨k, rfl⟩ := Nat.exists_eq_add_of_le h
+  rw [doStmtR_add (by rw [hx]; exact Res.ok_ne_out), hx]
+
 /-! ### progress -/
 
 /-- one call site of `lengths`: "out" and "fail" contradict `h`; the goal that remains is the
@@ -1408,11 +1598,14 @@ structure LenAll (f : Nat) : Prop where
   rp : ∀ cs e r, recPairR f cs = .ok (e, r) → r.length < cs.length
   ri : ∀ cs e r, recItemR f cs = .ok (e, r) → r.length < cs.length
   rt : ∀ cs es r, recTailR f cs = .ok (es, r) → r.length ≤ cs.length
+  d : ∀ cs e r, doR f cs = .ok (e, r) → r.length < cs.length
+  ds : ∀ cs ss r, doStmtsR f cs = .ok (ss, r) → r.length ≤ cs.length
+  d1 : ∀ cs oe r, doStmtR f cs = .ok (oe, r) → r.length < cs.length
 
 theorem lengths (f : Nat) : LenAll f := by
   induction f with
   | zero =>
-    refine ⟨?_, ?_, ?_, ?_, ?_, ?_, ?_, ?_, ?_, ?_, ?_, ?_, ?_, ?_, ?_⟩
+    refine ⟨?_, ?_, ?_, ?_, ?_, ?_, ?_, ?_, ?_, ?_, ?_, ?_, ?_, ?_, ?_, ?_, ?_, ?_⟩
     · intro lam cs its r h; rw [exprR_zero] at h; cases h
     · intro lam cs its r h; rw [tailR_zero] at h; cases h
     · intro lam cs its r h; rw [operandR_zero] at h; cases h
@@ -1428,8 +1621,11 @@ theorem lengths (f : Nat) : LenAll f := by
     · intro cs its r h; rw [recPairR_zero] at h; cases h
     · intro cs its r h; rw [recItemR_zero] at h; cases h
     · intro cs its r h; rw [recTailR_zero] at h; cases h
+    · intro cs its r h; rw [doR_zero] at h; cases h
+    · intro cs its r h; rw [doStmtsR_zero] at h; cases h
+    · intro cs its r h; rw [doStmtR_zero] at h; cases h
   | succ f ih =>
-    refine ⟨?_, ?_, ?_, ?_, ?_, ?_, ?_, ?_, ?_, ?_, ?_, ?_, ?_, ?_, ?_⟩
+    refine ⟨?_, ?_, ?_, ?_, ?_, ?_, ?_, ?_, ?_, ?_, ?_, ?_, ?_, ?_, ?_, ?_, ?_, ?_⟩
     · intro lam cs its r h
       rw [exprR_succ] at h
       len_site h1 : operandR lam f cs, h
@@ -1499,17 +1695,28 @@ theorem lengths (f : Nat) : LenAll f := by
       | fail =>
         rw [h0] at h
         simp only at h
-        cases h1 : lamR f cs with
-        | out => rw [h1] at h; cases h
+        cases hd : doR f cs with
+        | out => rw [hd] at h; cases h
         | ok x =>
           obtain ⟨e', r'⟩ := x
-          rw [h1] at h
+          rw [hd] at h
           simp only [Res.ok.injEq, Prod.mk.injEq] at h
           obtain ⟨_, rfl⟩ := h
-          exact ih.l _ _ _ h1
+          exact ih.d _ _ _ hd
         | fail =>
-          rw [h1] at h
-          exact ih.m2 _ _ _ h
+          rw [hd] at h
+          simp only at h
+          cases h1 : lamR f cs with
+          | out => rw [h1] at h; cases h
+          | ok x =>
+            obtain ⟨e', r'⟩ := x
+            rw [h1] at h
+            simp only [Res.ok.injEq, Prod.mk.injEq] at h
+            obtain ⟨_, rfl⟩ := h
+            exact ih.l _ _ _ h1
+          | fail =>
+            rw [h1] at h
+            exact ih.m2 _ _ _ h
     · intro cs e r h
       rw [lamR_succ] at h
       split at h
@@ -1908,6 +2115,91 @@ theorem lengths (f : Nat) : LenAll f := by
       · simp only [Res.ok.injEq, Prod.mk.injEq] at h
         obtain ⟨_, rfl⟩ := h
         exact Nat.le_refl _
+    · intro cs e r h
+      rw [doR_succ] at h
+      split at h
+      · rename_i r1 hh
+        have h0 := doHead_length hh
+        len_site h1 : doStmtsR f r1, h
+        rename_i x; obtain ⟨stmts, r2⟩ := x
+        simp only at h
+        split at h
+        · rename_i r3 hr
+          have hr3 := retHead_length hr
+          have hg := gapH_length r2
+          len_site h2 : exprR false f r3, h
+          rename_i y; obtain ⟨its, r4⟩ := y
+          simp only at h
+          split at h
+          · rename_i r5 hw
+            split at h
+            · simp only [Res.ok.injEq, Prod.mk.injEq] at h
+              obtain ⟨_, rfl⟩ := h
+              have := ih.ds _ _ _ h1
+              have := ih.e _ _ _ _ h2
+              have h5 := wnStar_length r4
+              rw [hw] at h5
+              simp only [List.length_cons] at h5
+              omega
+            · cases h
+          · cases h
+        · cases h
+      · cases h
+    · intro cs ss r h
+      rw [doStmtsR_succ] at h
+      have hsk := skipWs_length cs
+      cases h1 : doStmtR f (skipWs cs) with
+      | out => rw [h1] at h; cases h
+      | fail =>
+        rw [h1] at h
+        simp only [Res.ok.injEq, Prod.mk.injEq] at h
+        obtain ⟨_, rfl⟩ := h
+        exact Nat.le_refl _
+      | ok x =>
+        obtain ⟨oe, r1⟩ := x
+        rw [h1] at h
+        simp only at h
+        split at h
+        · rename_i r2 hs
+          have hs2 := stmtSep_length hs
+          have := skipWs_length r1
+          have := gapG_length r2
+          len_site h2 : doStmtsR f (gapG r2), h
+          rename_i y; obtain ⟨more, r3⟩ := y
+          simp only [Res.ok.injEq, Prod.mk.injEq] at h
+          obtain ⟨_, rfl⟩ := h
+          have := ih.d1 _ _ _ h1
+          have := ih.ds _ _ _ h2
+          omega
+        · simp only [Res.ok.injEq, Prod.mk.injEq] at h
+          obtain ⟨_, rfl⟩ := h
+          exact Nat.le_refl _
+    · intro cs oe r h
+      rw [doStmtR_succ] at h
+      cases h1 : exprR false f cs with
+      | out => rw [h1] at h; cases h
+      | ok x =>
+        obtain ⟨its, r1⟩ := x
+        rw [h1] at h
+        simp only at h
+        split at h
+        · simp only [Res.ok.injEq, Prod.mk.injEq] at h
+          obtain ⟨_, rfl⟩ := h
+          have := ih.e _ _ _ _ h1
+          have := itemTrail_length r1
+          omega
+        · cases h
+      | fail =>
+        rw [h1] at h
+        simp only at h
+        split at h
+        · rename_i r1 hc
+          simp only [Res.ok.injEq, Prod.mk.injEq] at h
+          obtain ⟨_, rfl⟩ := h
+          have := inlineComment_length hc
+          have := itemTrail_length r1
+          omega
+        · cases h
 
 theorem exprR_length {lam f cs its r} (h : exprR lam f cs = .ok (its, r)) :
     r.length < cs.length := (lengths f).e lam cs its r h
@@ -1939,6 +2231,12 @@ theorem recItemR_length {f cs e r} (h : recItemR f cs = .ok (e, r)) :
     r.length < cs.length := (lengths f).ri cs e r h
 theorem recTailR_length {f cs es r} (h : recTailR f cs = .ok (es, r)) :
     r.length ≤ cs.length := (lengths f).rt cs es r h
+theorem doR_length {f cs e r} (h : doR f cs = .ok (e, r)) :
+    r.length < cs.length := (lengths f).d cs e r h
+theorem doStmtsR_length {f cs ss r} (h : doStmtsR f cs = .ok (ss, r)) :
+    r.length ≤ cs.length := (lengths f).ds cs ss r h
+theorem doStmtR_length {f cs oe r} (h : doStmtR f cs = .ok (oe, r)) :
+    r.length < cs.length := (lengths f).d1 cs oe r h
 
 /-! ### the driver's fuel suffices -/
 
@@ -1969,13 +2267,16 @@ structure FuelAll (f : Nat) (cs : List Char) : Prop where
   rp : 8 * cs.length + 2 ≤ f → recPairR f cs ≠ .out
   ri : 8 * cs.length + 6 ≤ f → recItemR f cs ≠ .out
   rt : 8 * cs.length + 1 ≤ f → recTailR f cs ≠ .out
+  d : 8 * cs.length + 2 ≤ f → doR f cs ≠ .out
+  ds : 8 * cs.length + 7 ≤ f → doStmtsR f cs ≠ .out
+  d1 : 8 * cs.length + 6 ≤ f → doStmtR f cs ≠ .out
 
 theorem fuel_suffices (f : Nat) (cs : List Char) : FuelAll f cs := by
   induction f generalizing cs with
   | zero =>
-    refine ⟨?_, ?_, ?_, ?_, ?_, ?_, ?_, ?_, ?_, ?_, ?_, ?_, ?_, ?_, ?_⟩ <;> intros <;> omega
+    refine ⟨?_, ?_, ?_, ?_, ?_, ?_, ?_, ?_, ?_, ?_, ?_, ?_, ?_, ?_, ?_, ?_, ?_, ?_⟩ <;> intros <;> omega
   | succ f ih =>
-    refine ⟨?_, ?_, ?_, ?_, ?_, ?_, ?_, ?_, ?_, ?_, ?_, ?_, ?_, ?_, ?_⟩
+    refine ⟨?_, ?_, ?_, ?_, ?_, ?_, ?_, ?_, ?_, ?_, ?_, ?_, ?_, ?_, ?_, ?_, ?_, ?_⟩
     · intro lam hf
       rw [exprR_succ]
       fs_site h1 : operandR lam f cs, ((ih cs).o lam (by omega))
@@ -2014,10 +2315,15 @@ theorem fuel_suffices (f : Nat) (cs : List Char) : FuelAll f cs := by
       | ok x => exact Res.ok_ne_out
       | fail =>
         simp only
-        cases h1 : lamR f cs with
-        | out => exact absurd h1 ((ih cs).l (by omega))
+        cases hd : doR f cs with
+        | out => exact absurd hd ((ih cs).d (by omega))
         | ok x => exact Res.ok_ne_out
-        | fail => exact (ih cs).m2 (by omega)
+        | fail =>
+          simp only
+          cases h1 : lamR f cs with
+          | out => exact absurd h1 ((ih cs).l (by omega))
+          | ok x => exact Res.ok_ne_out
+          | fail => exact (ih cs).m2 (by omega)
     · intro hf
       rw [lamR_succ]
       split
@@ -2247,6 +2553,59 @@ theorem fuel_suffices (f : Nat) (cs : List Char) : FuelAll f cs := by
         fs_site h2 : recTailR f r1, ((ih r1).rt (by omega))
         exact Res.ok_ne_out
       · exact Res.ok_ne_out
+    · intro hf
+      rw [doR_succ]
+      split
+      · rename_i r1 hh
+        have := doHead_length hh
+        fs_site h1 : doStmtsR f r1, ((ih r1).ds (by omega))
+        rename_i x; obtain ⟨stmts, r2⟩ := x
+        have := doStmtsR_length h1
+        simp only
+        split
+        · rename_i r3 hr
+          have := retHead_length hr
+          have := gapH_length r2
+          fs_site h2 : exprR false f r3, ((ih r3).e false (by omega))
+          split
+          · split
+            · exact Res.ok_ne_out
+            · exact Res.fail_ne_out
+          · exact Res.fail_ne_out
+        · exact Res.fail_ne_out
+      · exact Res.fail_ne_out
+    · intro hf
+      rw [doStmtsR_succ]
+      have hsk := skipWs_length cs
+      cases h1 : doStmtR f (skipWs cs) with
+      | out => exact absurd h1 ((ih _).d1 (by omega))
+      | fail => exact Res.ok_ne_out
+      | ok x =>
+        obtain ⟨oe, r1⟩ := x
+        have := doStmtR_length h1
+        simp only
+        split
+        · rename_i r2 hs
+          have := stmtSep_length hs
+          have := skipWs_length r1
+          have := gapG_length r2
+          fs_site h2 : doStmtsR f (gapG r2), ((ih _).ds (by omega))
+          exact Res.ok_ne_out
+        · exact Res.ok_ne_out
+    · intro hf
+      rw [doStmtR_succ]
+      cases h1 : exprR false f cs with
+      | out => exact absurd h1 ((ih cs).e false (by omega))
+      | ok x =>
+        simp only
+        split
+        · exact Res.ok_ne_out
+        · exact Res.fail_ne_out
+      | fail =>
+        simp only
+        split
+        · exact Res.ok_ne_out
+        · exact Res.fail_ne_out
 
 theorem exprR_fuel_suffices {lam : Bool} {f : Nat} {cs : List Char} {x}
     (hx : exprR lam f cs = .ok x) : ∀ f', fuelFor cs ≤ f' → exprR lam f' cs = .ok x := by
